@@ -10,31 +10,41 @@ import os, json, vlib, gen, hist
 from props import imgprop, C10
 PID = "C11"
 
-def dircycle_big(exe, rng, i):
-    """a volume of 30000-70000 blocks with a directory that reappears further down one of its own hash chains: the
-    recursive listing must give up (budget / 512 levels), not recurse until the stack is exhausted"""
+dircycle_big = C10.dircycle_big
+
+def dirc_emptycycle(exe, rng, i):
+    """a DIRCACHE volume on which the cache block of an EMPTY directory (no records) points to itself, or two empty
+    directories' cache blocks point to each other: listed through the cache (recursive from the root and directly)"""
     import struct, fsck
     hx = gen.hx
-    n = rng.choice([30000, 65536, 70000]); dt = rng.choice([0, 1, 3])
-    pre = [f"newdev 0 {n} 1 1", "clock 2021 3 3 3 3 3", f"mkhdf 0 {hx(b'deep')} {dt}", "mount 0 0 0",
-           f"mkdir 0 0 {hx(b'D')}", f"chdir 0 0 {hx(b'D')}", f"mkdir 0 0 {hx(b'F')}", f"open 1 0 0 {hx(b'x')} 2", "write 1 100 1", "close 1", "unmount 0 0"]
-    p = os.path.join(vlib.scratch(), f"c11deep_{i}.img")
+    dt = rng.choice([4, 5, 6, 7])
+    pre = ["newdev 0 80 2 11", "clock 2022 4 4 4 4 4", f"mkflop 0 {hx(b'ec')} {dt}", "mount 0 0 0",
+           f"mkdir 0 0 {hx(b'full')}", f"mkdir 0 0 {hx(b'empty')}", f"mkdir 0 0 {hx(b'empty2')}", f"chdir 0 0 {hx(b'full')}",
+           f"open 1 0 0 {hx(b'a')} 2", "close 1", f"mkdir 0 0 {hx(b'e3')}", "toroot 0 0", "unmount 0 0"]
+    p = os.path.join(vlib.scratch(), f"c11ec_{i}.img")
     vlib.run_c(exe, pre + [f"dumpimg 0 {p}", "closedev 0"], timeout=120)
     with open(p, "rb") as fh: img = fh.read()
     os.unlink(p)
-    f = fsck.fsck_image(img, 0, n, want_data=False)
-    D = next((k for k in f.root.kids.values() if k.name == b"D"), None) if f.root else None
-    F = next((k for k in D.kids.values() if k.name == b"F"), None) if D else None
-    if not F: return None
-    # F.nextSameHash := D  (F is inside D: D reappears as a chain member of its own child list), checksum re-fixed
-    blk = bytearray(img[F.block * 512:(F.block + 1) * 512])
-    struct.pack_into(">I", blk, 0x1f0, D.block)
-    struct.pack_into(">I", blk, 20, 0)
-    s = sum(struct.unpack(">128I", blk)) & 0xffffffff
-    struct.pack_into(">I", blk, 20, (-s) & 0xffffffff)
-    off = F.block * 512
-    muts = [f"pokeimg 0 {off + 0x1f0} {blk[0x1f0:0x1f4].hex()}", f"pokeimg 0 {off + 20} {blk[20:24].hex()}"]
-    return pre + ["closedev 0"] + muts + ["opendev 0 1", "mount 0 0 1", "list 0 0 1", "list 0 0 0", "unmount 0 0", "closedev 0"]
+    f = fsck.fsck_image(img, 0, 1760, want_data=False)
+    if not f.root: return None
+    cache_of = {}
+    for b, what in f.owner.items():
+        if what.startswith("cache of dir"): cache_of.setdefault(int(what.split()[-1]), []).append(b)
+    E = next((k for k in f.root.kids.values() if k.name == b"empty"), None)
+    E2 = next((k for k in f.root.kids.values() if k.name == b"empty2"), None)
+    if not E or not E2 or E.block not in cache_of or E2.block not in cache_of: return None
+    c1, c2 = cache_of[E.block][0], cache_of[E2.block][0]
+    links = [(c1, c1)] if i % 2 == 0 else [(c1, c2), (c2, c1)]
+    muts = []
+    for blkno, nxt in links:
+        blk = bytearray(img[blkno * 512:(blkno + 1) * 512])
+        struct.pack_into(">I", blk, 16, nxt)
+        struct.pack_into(">I", blk, 20, 0)
+        s_ = sum(struct.unpack(">128I", blk)) & 0xffffffff
+        struct.pack_into(">I", blk, 20, (-s_) & 0xffffffff)
+        muts += [f"pokeimg 0 {blkno * 512 + 16} {blk[16:20].hex()}", f"pokeimg 0 {blkno * 512 + 20} {blk[20:24].hex()}"]
+    return pre + ["closedev 0"] + muts + ["opendev 0 1", "mount 0 0 1", "usedirc 1", f"chdir 0 0 {hx(b'empty')}", "list 0 0 0", "toroot 0 0",
+                                         "list 0 0 1", "usedirc 0", "list 0 0 1", "unmount 0 0", "closedev 0"]
 
 _BIG = {}
 def bmext_hostile(exe, rng, i):
@@ -90,6 +100,11 @@ def run(res):
         o = dircycle_big(exe, vlib.rng_for(res.seed, f"C11deep/{i}"), i)
         if o:
             cb, paths, tie, san, crash, fault = hist.run_plain(exe, [f"readlimit {4 * 70000}"] + o, timeout=180)
+            rdb.append(dict(ops=o, cb=cb, tie=tie, san=san, crash=crash, fault=fault))
+    for i in range(4 if res.tier == "quick" else 40):
+        o = dirc_emptycycle(exe, vlib.rng_for(res.seed, f"C11ec/{i}"), i)
+        if o:
+            cb, paths, tie, san, crash, fault = hist.run_plain(exe, ["readlimit 20000"] + o, timeout=60)
             rdb.append(dict(ops=o, cb=cb, tie=tie, san=san, crash=crash, fault=fault))
     with ThreadPoolExecutor(4) as ex: rdb += list(ex.map(big, range(3, 7 if res.tier == "quick" else 60)))
     bad, ties = [], []
